@@ -93,6 +93,9 @@ fn check_decimals(fw: &FactoryWorld) -> Result<(), String> {
         if f.asset_decimals != own.asset_decimals {
             return Err(format!("factory record of {:?} has decimals {:?} but the pair {} describes itself with {:?}", k, f.asset_decimals, m.addr, own.asset_decimals));
         }
+        if f != own {
+            return Err(format!("factory record of {:?} and the pair's self-description diverge: factory {:?} vs pair {:?}", k, f, own));
+        }
         if f.asset_decimals != m.decimals {
             return Err(format!("pair {:?} (assets {:?}) reports decimals {:?}; the registered/true decimals are {:?}", k, m.infos, f.asset_decimals, m.decimals));
         }
